@@ -68,6 +68,9 @@ def answer : List String → String
          | none => "reject"
          | some r => showList (fun q => q.1 ++ "|" ++ showRat q.2.1 ++ "|" ++ q.2.2.1 ++ "|" ++ toString q.2.2.2) r)
       | _, _, _, _ => "bad-op"
+  | ["listsok", nb, lens] => match nb.toNat?, parseNatList? lens with
+      | some nb, some lens => showBool (listsConsistent nb lens)
+      | _, _ => "bad-op"
   | ["mult", grid, ids, decl] =>
       match parseList? parseContent? grid, parseList? some ids with
       | some grid, some ids =>
